@@ -19,6 +19,11 @@ type digester struct {
 	deep int
 }
 
+// digestPoolsOpaque: the contents of sync pools are left out of the digest (what a correctly used
+// pool holds is not observable state; misuse shows in outputs: C08 runs every history of up to
+// three operations whatever the digests are, C09 compares interleaved outputs and runs the race pass).
+var digestPoolsOpaque = true
+
 func newDigester() *digester { return &digester{seen: map[uintptr]int{}} }
 
 func (d *digester) w(format string, a ...any) { d.out = append(d.out, fmt.Sprintf(format, a...)...) }
@@ -81,7 +86,7 @@ func (d *digester) value(v reflect.Value) {
 		}
 		d.value(e)
 	case reflect.Struct:
-		if t := v.Type(); t.PkgPath() == "verif/vrt/vsync" && t.Name() == "Pool" || t.PkgPath() == "sync" && t.Name() == "Pool" {
+		if t := v.Type(); digestPoolsOpaque && (t.PkgPath() == "verif/vrt/vsync" && t.Name() == "Pool" || t.PkgPath() == "sync" && t.Name() == "Pool") {
 			// the contents of a pool are opaque: by contract nobody may rely on what a pooled object
 			// holds (stale pointers into a finished operation's private data are normal), and Get/Put
 			// are synchronisation operations. Misuse shows in the interleaved outputs and the race pass.
